@@ -367,22 +367,7 @@ func run(c *core.Ctx) error {
 		}
 		return out
 	}
-	atomSets := allFlagSets
-	if !c.Thorough() {
-		// quick: every subset of {i, x, a}, alone and together with m s U
-		atomSets = nil
-		for _, f := range allFlagSets {
-			n := 0
-			for _, x := range []string{"m", "s", "U"} {
-				if hasFlag(f, x) {
-					n++
-				}
-			}
-			if n == 0 || n == 3 {
-				atomSets = append(atomSets, f)
-			}
-		}
-	}
+	atomSets := allFlagSets // every atom under all 64 flag sets
 	opSets := [][][]string{few, more}[c.Pick(0, 1)]
 	var shards []*shard
 	if c.Thorough() {
@@ -392,10 +377,12 @@ func run(c *core.Ctx) error {
 			{name: "trivia", families: []string{"trivia"}, flagSets: map[string][][]string{"trivia": xsets}, classN: 1, txtLen: 3},
 		}
 	} else {
-		shards = []*shard{{name: "families", families: []string{"atoms", "ops", "compose", "trivia"},
-			flagSets: map[string][][]string{"atoms": atomSets, "ops": opSets, "trivia": xsets}, classN: 3, txtLen: 2}}
+		shards = []*shard{
+			{name: "atoms", families: []string{"atoms"}, flagSets: map[string][][]string{"atoms": atomSets}, classN: 3},
+			{name: "ops", families: []string{"ops", "compose", "trivia"}, flagSets: map[string][][]string{"ops": opSets, "trivia": xsets}, classN: 1, txtLen: 2},
+		}
 	}
-	nFile := c.Pick(2500, 60000)
+	nFile := c.Pick(5000, 60000)
 	per := c.Pick(2500, 3000)
 	for i := 0; i < nFile; i += per {
 		depth := 2 + (i/per)%2
@@ -553,7 +540,7 @@ func run(c *core.Ctx) error {
 	}
 
 	// ---- code -> spec: recorded outcomes of the real code judged by TLC (invariant ImplConforms)
-	if err := judgeRecorded(c, cases, real, subjInts); err != nil {
+	if err := judgeRecorded(c, cases, real, mism, subjInts); err != nil {
 		return err
 	}
 
@@ -732,12 +719,20 @@ func hasKind(n *Node, k string) bool {
 }
 
 // judgeRecorded is the code -> spec direction: outcomes recorded from the real code are written into
-// cases.ndjson (field impl) and TLC checks the property relation Conforms on them, with the recorded
-// known deviations enabled (so that the judge is "reference semantics + exactly the known findings").
-func judgeRecorded(c *core.Ctx, cases []*Case, real map[int]*RealOut, subjInts [][]int) error {
-	n := c.Pick(200, 3000)
-	var file []*Case
-	for _, i := range c.SampleIdx(len(cases), n) {
+// cases.ndjson (field impl) and TLC checks the property relation Conforms on them as an invariant
+// (ImplConforms). A case whose difference was explained by a recorded known deviation is judged by the
+// specification with exactly that deviation enabled; all others by the reference semantics.
+func judgeRecorded(c *core.Ctx, cases []*Case, real map[int]*RealOut, mism []*mismatch, subjInts [][]int) error {
+	tag := map[int]string{}
+	for _, m := range mism {
+		if d, ok := m.rec["deviation"].(string); ok {
+			tag[m.cs.ID] = d
+		} else {
+			tag[m.cs.ID] = "unexplained" // already reported as a violation
+		}
+	}
+	groups := map[string][]*Case{}
+	for _, i := range c.SampleIdx(len(cases), c.Pick(200, 3000)) {
 		cs := *cases[i]
 		ro := real[cs.ID]
 		switch ro.Stage {
@@ -752,34 +747,45 @@ func judgeRecorded(c *core.Ctx, cases []*Case, real map[int]*RealOut, subjInts [
 		default:
 			continue
 		}
-		file = append(file, &cs)
-	}
-	sh := &shard{name: "recorded", families: []string{"file"}, classN: 1, file: file, cfg: "Judge.cfg"}
-	_, res, _, err := runShard(c, sh, subjInts, c.KnownDeviations(), c.Workers, 15*time.Minute)
-	if err != nil {
-		return err
-	}
-	switch {
-	case res.OK:
-		c.CovAdd("traces_validated_against_impl", len(file))
-		c.CovAdd("states", int(res.Distinct))
-		c.CovAdd("transitions", int(res.Generated))
-		c.Cov("recorded_outcomes_judged_by_tlc", len(file))
-		c.Logf("TLC accepted %d recorded outcomes of the real code (ImplConforms, deviations %v) in %.1fs", len(file), c.KnownDeviations(), res.WallS)
-	case res.Verdict == "invariant" && res.What == "ImplConforms":
-		// The same cases were already compared in the replay direction. If that direction reported
-		// nothing, the only explanation is that a deviation branch of the specification is not an exact
-		// model of the known finding: a model problem, not a violation.
-		if d := os.Getenv("C21_DEBUG_DIR"); d != "" {
-			os.WriteFile(filepath.Join(d, "judge-trace.txt"), []byte(res.ErrorTrace), 0o644)
+		if tag[cs.ID] != "unexplained" {
+			groups[tag[cs.ID]] = append(groups[tag[cs.ID]], &cs)
 		}
-		if c.Violations() == 0 {
-			return core.Inconclusivef("TLC rejects a recorded outcome that the replay direction accepted: a deviation branch is inexact\n%s", tailStr(res.ErrorTrace, 3000))
-		}
-		c.Note("TLC (ImplConforms) also rejects a recorded outcome of the real code")
-	default:
-		return core.Inconclusivef("TLC judging recorded outcomes: verdict=%s %s\n%s", res.Verdict, res.What, tailStr(res.Output, 2000))
 	}
+	var tags []string
+	for t := range groups {
+		tags = append(tags, t)
+	}
+	sort.Strings(tags)
+	total := 0
+	t0 := time.Now()
+	for _, t := range tags {
+		var devs []string
+		if t != "" {
+			devs = strings.Split(t, "+")
+		}
+		sh := &shard{name: "recorded", families: []string{"file"}, classN: 1, file: groups[t], cfg: "Judge.cfg"}
+		_, res, _, err := runShard(c, sh, subjInts, devs, c.Workers, 15*time.Minute)
+		if err != nil {
+			return err
+		}
+		switch {
+		case res.OK:
+			total += len(groups[t])
+			c.CovAdd("states", int(res.Distinct))
+			c.CovAdd("transitions", int(res.Generated))
+		case res.Verdict == "invariant" && res.What == "ImplConforms":
+			if d := os.Getenv("C21_DEBUG_DIR"); d != "" {
+				os.WriteFile(filepath.Join(d, "judge-trace.txt"), []byte(res.ErrorTrace), 0o644)
+			}
+			// the same vectors were compared by the replay direction: TLC and the harness disagree
+			return core.Inconclusivef("TLC (ImplConforms, deviations %v) rejects a recorded outcome the replay direction accepted\n%s", devs, tailStr(res.ErrorTrace, 3000))
+		default:
+			return core.Inconclusivef("TLC judging recorded outcomes: verdict=%s %s\n%s", res.Verdict, res.What, tailStr(res.Output, 2000))
+		}
+	}
+	c.CovAdd("traces_validated_against_impl", total)
+	c.Cov("recorded_outcomes_judged_by_tlc", total)
+	c.Logf("TLC accepted %d recorded outcomes of the real code (invariant ImplConforms; %d groups by deviation) in %.1fs", total, len(tags), time.Since(t0).Seconds())
 	return nil
 }
 
